@@ -733,9 +733,23 @@ pub fn value_cases(codec: Codec, types: &[VariantType], k3: bool, large: bool) -
 /// root) x every placement of one Ref / Content-object / SharedString pair.
 pub fn topo_cases(max_nodes: usize, class_count: u8) -> Vec<CaseDesc> {
     let mut out = Vec::new();
-    let mut how = 0u8;
     for n in 1..=max_nodes {
         for parents in forests(n) {
+            out.extend(topo_cases_for_forest(&parents, class_count));
+        }
+    }
+    out
+}
+
+/// The topology cases of one forest shape (used directly for the largest size so that the
+/// whole enumeration never has to be held in memory at once).
+pub fn topo_cases_for_forest(parents: &[Option<usize>], class_count: u8) -> Vec<CaseDesc> {
+    let parents = parents.to_vec();
+    let n = parents.len();
+    let mut out = Vec::new();
+    let mut how = 0u8;
+    {
+        {
             let mut sels: Vec<Option<Vec<usize>>> = vec![None];
             for s in root_selections(&parents, 3) {
                 sels.push(Some(s));
